@@ -1383,14 +1383,17 @@ impl BookedVersions {
         seqs: Option<&RangeInclusive<CrsqlSeq>>,
     ) -> bool {
         self.contains_version(&version)
-            && seqs
-                .map(|check_seqs| match self.partials.get(&version) {
-                    Some(partial) => check_seqs.clone().all(|seq| partial.seqs.contains(&seq)),
-                    // if `contains_version` is true but we don't have a partial version,
-                    // then we must have it as a fully applied or cleared version
-                    None => true,
-                })
-                .unwrap_or(true)
+            && match (self.partials.get(&version), seqs) {
+                (Some(partial), Some(check_seqs)) => {
+                    check_seqs.clone().all(|seq| partial.seqs.contains(&seq))
+                }
+                // asked about the version as a whole (e.g. a peer tells us it is empty):
+                // a version we only hold part of is not known yet
+                (Some(partial), None) => partial.is_complete(),
+                // if `contains_version` is true but we don't have a partial version,
+                // then we must have it as a fully applied or cleared version
+                (None, _) => true,
+            }
     }
 
     pub fn contains_all(
